@@ -1,160 +1,13 @@
-(* C12 — expressions: the formula language, its denotation over Q, and the operations qupulse builds on it
-   (substitution = evaluate_symbolic, builders = ExpressionScalar operators, tri-state comparison, numpy-style
-   broadcasting evaluation).  Definitions only (no proofs): the file must still evaluate when a proof breaks.
-   sympy itself (parser, printer, lambdify) is NOT modelled: it is the implementation and is compared with `eval`. *)
+(* C12 -- the OPERATIONAL MODEL of what qupulse builds on the formula language (the language and its denotation are the
+   specification, Spec.v): substitution = evaluate_symbolic -> recursive_substitution, builders = ExpressionScalar
+   operators, the tri-state comparison, numpy-style broadcasting evaluation.  Definitions only (no proofs): the file
+   must still evaluate when a proof breaks.  sympy itself (parser, printer, lambdify) is NOT modelled: it is the
+   implementation and is compared with `eval`. *)
 From Coq Require Import ZArith QArith Qround Qabs List Bool NArith.
+Require Export QV.C12.Spec.
 Import ListNotations.
 
-Inductive err := EUnbound | EDivZero | EIndex | EType | ENan | EFn | EShape.
-Inductive result (A : Type) : Type := Ok (a : A) | Err (e : err).
-Arguments Ok {A} a.
-Arguments Err {A} e.
-Definition bind {A B} (r : result A) (f : A -> result B) : result B :=
-  match r with Ok a => f a | Err e => Err e end.
-
-Inductive cmpop := OLt | OLe | OGt | OGe | OEq | ONe.
-Inductive binop := BAdd | BSub | BMul | BDiv | BMin | BMax | BFloorDiv | BCmp (c : cmpop) | BAnd | BOr.
-Inductive unop := UNeg | UFloor | UCeil | UAbs | UPow (n : Z) | UFn (f : N) | UNot.
-
-(* scalar formulas.  Truth values are 1/0 (conditions of Piecewise); `Nan` is the value of a Piecewise without a
-   matching branch; `Idx x i` is `x[i]` for an indexed base `x`; `IBc a n i` is IndexedBroadcast(a, (n,), i). *)
-Inductive expr :=
-| Const (q : Q)
-| Nan
-| Var (x : N)
-| Un (o : unop) (a : expr)
-| Bin (o : binop) (a b : expr)
-| Ite (c a b : expr)
-| Sum (i : N) (lo hi body : expr)
-| Idx (x : N) (i : expr)
-| IBc (a : expr) (n : Z) (i : expr).
-
-(* ---- values of the operators ------------------------------------------------------------------------------------ *)
-Definition b2q (b : bool) : Q := if b then 1 else 0.
-Definition truthy (q : Q) : bool := negb (Qeq_bool q 0).
-Definition Qltb (a b : Q) : bool := negb (Qle_bool b a).
-Definition cmp_eval (c : cmpop) (x y : Q) : bool :=
-  match c with
-  | OLt => Qltb x y | OLe => Qle_bool x y | OGt => Qltb y x | OGe => Qle_bool y x
-  | OEq => Qeq_bool x y | ONe => negb (Qeq_bool x y)
-  end.
-Definition qfloor (x : Q) : Q := inject_Z (Qfloor x).
-Definition qceil (x : Q) : Q := inject_Z (Qceiling x).
-
-Definition bin_eval (o : binop) (x y : Q) : result Q :=
-  match o with
-  | BAdd => Ok (x + y) | BSub => Ok (x - y) | BMul => Ok (x * y)
-  | BDiv => if Qeq_bool y 0 then Err EDivZero else Ok (x / y)
-  | BMin => Ok (if Qle_bool x y then x else y)
-  | BMax => Ok (if Qle_bool x y then y else x)
-  | BFloorDiv => if Qeq_bool y 0 then Err EDivZero else Ok (qfloor (x / y))
-  | BCmp c => Ok (b2q (cmp_eval c x y))
-  | BAnd => Ok (b2q (truthy x && truthy y))
-  | BOr => Ok (b2q (truthy x || truthy y))
-  end.
-
-Definition un_eval (fn : N -> Q -> option Q) (o : unop) (x : Q) : result Q :=
-  match o with
-  | UNeg => Ok (- x) | UFloor => Ok (qfloor x) | UCeil => Ok (qceil x) | UAbs => Ok (Qabs x)
-  | UPow n => if (n <? 0)%Z && Qeq_bool x 0 then Err EDivZero else Ok (Qpower x n)
-  | UFn f => match fn f x with Some v => Ok v | None => Err EFn end
-  | UNot => Ok (b2q (negb (truthy x)))
-  end.
-
-(* a rational that is an integer (Python int index / range bound) *)
-Definition as_int (q : Q) : option Z :=
-  let r := Qred q in if Pos.eqb (Qden r) 1 then Some (Qnum r) else None.
-
-(* numpy / Python indexing: negative positions count from the end *)
-Definition index (l : list Q) (z : Z) : result Q :=
-  let n := Z.of_nat (length l) in
-  let z' := if (z <? 0)%Z then (z + n)%Z else z in
-  if (0 <=? z')%Z && (z' <? n)%Z then
-    match nth_error l (Z.to_nat z') with Some v => Ok v | None => Err EIndex end
-  else Err EIndex.
-
-(* sum_{k = lo}^{lo+n-1} f k, left to right, first error wins *)
-Fixpoint sum_range (f : Z -> result Q) (lo : Z) (n : nat) : result Q :=
-  match n with
-  | O => Ok 0
-  | S n' => bind (f lo) (fun v => bind (sum_range f (lo + 1)%Z n') (fun r => Ok (v + r)))
-  end.
-
-(* ---- environments ---------------------------------------------------------------------------------------------- *)
-Record env := { sc : N -> option Q;            (* scalar variables *)
-                vc : N -> option (list Q);     (* indexed bases *)
-                fn : N -> Q -> option Q }.     (* interpretation of the uninterpreted functions (sin, cos, exp) *)
-Definition set_sc (r : env) (i : N) (v : Q) : env :=
-  {| sc := fun x => if N.eqb x i then Some v else sc r x; vc := vc r; fn := fn r |}.
-
-(* ---- the denotation ------------------------------------------------------------------------------------------- *)
-Fixpoint eval (r : env) (e : expr) {struct e} : result Q :=
-  match e with
-  | Const q => Ok q
-  | Nan => Err ENan
-  | Var x => match sc r x with Some v => Ok v | None => Err EUnbound end
-  | Un o a => bind (eval r a) (un_eval (fn r) o)
-  | Bin o a b => bind (eval r a) (fun x => bind (eval r b) (fun y => bin_eval o x y))
-  | Ite c a b => bind (eval r c) (fun t => if truthy t then eval r a else eval r b)
-  | Sum i lo hi body =>
-      bind (eval r lo) (fun l => bind (eval r hi) (fun h =>
-        match as_int l, as_int h with
-        | Some lz, Some hz => sum_range (fun k => eval (set_sc r i (inject_Z k)) body) lz (Z.to_nat (hz - lz + 1))
-        | _, _ => Err EType
-        end))
-  | Idx x i =>
-      match vc r x with
-      | None => Err EUnbound
-      | Some l => bind (eval r i) (fun iv => match as_int iv with Some z => index l z | None => Err EIndex end)
-      end
-  | IBc a n i =>
-      bind (eval r a) (fun v => bind (eval r i) (fun iv =>
-        match as_int iv with
-        | Some z => if (- n <=? z)%Z && (z <? n)%Z then Ok v else Err EIndex
-        | None => Err EIndex
-        end))
-  end.
-
-(* ---- free variables -------------------------------------------------------------------------------------------- *)
-Definition nmem (x : N) (l : list N) : bool := existsb (N.eqb x) l.
-Definition nremove (x : N) (l : list N) : list N := filter (fun y => negb (N.eqb y x)) l.
-
-Fixpoint fv (e : expr) : list N :=       (* scalar variables *)
-  match e with
-  | Const _ | Nan => []
-  | Var x => [x]
-  | Un _ a => fv a
-  | Bin _ a b => fv a ++ fv b
-  | Ite c a b => fv c ++ fv a ++ fv b
-  | Sum i lo hi body => fv lo ++ fv hi ++ nremove i (fv body)
-  | Idx _ i => fv i
-  | IBc a _ i => fv a ++ fv i
-  end.
-Fixpoint fvv (e : expr) : list N :=      (* indexed bases *)
-  match e with
-  | Const _ | Nan | Var _ => []
-  | Un _ a => fvv a
-  | Bin _ a b => fvv a ++ fvv b
-  | Ite c a b => fvv c ++ fvv a ++ fvv b
-  | Sum _ lo hi body => fvv lo ++ fvv hi ++ fvv body
-  | Idx x i => x :: fvv i
-  | IBc a _ i => fvv a ++ fvv i
-  end.
-
-(* Expression._parse_evaluate_numeric_arguments: every variable of the expression must be in the scope, whether or
-   not the value is needed; then the compiled formula is evaluated *)
-Definition is_some {A} (o : option A) : bool := match o with Some _ => true | None => false end.
-Definition all_bound (r : env) (e : expr) : bool :=
-  forallb (fun x => is_some (sc r x)) (fv e) && forallb (fun x => is_some (vc r x)) (fvv e).
-Definition evaluate (r : env) (e : expr) : result Q :=
-  if all_bound r e then eval r e else Err EUnbound.
-
 (* ---- substitution (Expression.evaluate_symbolic -> recursive_substitution) ------------------------------------- *)
-Fixpoint lookup {A} (l : list (N * A)) (x : N) : option A :=
-  match l with
-  | [] => None
-  | (y, v) :: r => if N.eqb x y then Some v else lookup r x
-  end.
 Definition remove_key {A} (i : N) (l : list (N * A)) : list (N * A) :=
   filter (fun p => negb (N.eqb (fst p) i)) l.
 
@@ -173,13 +26,6 @@ Fixpoint subst (s : list (N * expr)) (e : expr) : expr :=
   | IBc a n i => IBc (subst s a) n (subst s i)
   end.
 
-(* the environment a simultaneous substitution denotes: substituted names get the value of their term in r *)
-Definition ext (r : env) (s : list (N * expr)) : env :=
-  {| sc := fun x => match lookup s x with
-                    | Some t => match eval r t with Ok v => Some v | Err _ => None end
-                    | None => sc r x
-                    end;
-     vc := vc r; fn := fn r |}.
 
 (* executable guard: no substituted term that reaches the body of a Sum mentions that Sum's index *)
 Fixpoint capture_free (s : list (N * expr)) (e : expr) : bool :=
@@ -202,17 +48,10 @@ Fixpoint capture_free (s : list (N * expr)) (e : expr) : bool :=
 Definition consts (l : list (N * Q)) : list (N * expr) := map (fun p => (fst p, Const (snd p))) l.
 
 (* ---- builders (ExpressionScalar.__add__ ... between an expression and an expression / number) ----------------- *)
-Inductive bop := OpAdd | OpSub | OpMul | OpDiv | OpFloorDiv.
 Definition build (o : bop) (a b : expr) : expr :=
   match o with
   | OpAdd => Bin BAdd a b | OpSub => Bin BSub a b | OpMul => Bin BMul a b | OpDiv => Bin BDiv a b
   | OpFloorDiv => Un UFloor (Bin BDiv a b)         (* sympy: a // b = floor(a / b) *)
-  end.
-Definition bop_val (o : bop) (x y : Q) : result Q :=
-  match o with
-  | OpAdd => Ok (x + y) | OpSub => Ok (x - y) | OpMul => Ok (x * y)
-  | OpDiv => if Qeq_bool y 0 then Err EDivZero else Ok (x / y)
-  | OpFloorDiv => if Qeq_bool y 0 then Err EDivZero else Ok (qfloor (x / y))
   end.
 Definition build_neg (a : expr) : expr := Un UNeg a.
 
@@ -230,7 +69,6 @@ Definition cmp_model (f : N -> Q -> option Q) (c : cmpop) (a b : expr) : option 
   else None.
 
 (* ---- numpy-style evaluation on arrays (broadcasting) ---------------------------------------------------------- *)
-Inductive value := VQ (q : Q) | VArr (l : list Q).
 
 Fixpoint seq_res {A} (l : list (result A)) : result (list A) :=
   match l with
@@ -256,11 +94,8 @@ Definition lift2 (f : Q -> Q -> result Q) (a b : value) : result value :=
       if Nat.eqb (length l) (length m) then bind (seq_res (zip_with f l m)) (fun r => Ok (VArr r))
       else Err EShape
   end.
-Definition vget (v : value) (j : nat) : option Q :=
-  match v with VQ x => Some x | VArr l => nth_error l j end.
 
 (* array environment: scalar variables may be bound to arrays (sample times) *)
-Record aenv := { asc : N -> option value; avc : N -> option (list Q); afn : N -> Q -> option Q }.
 Definition set_asc (r : aenv) (i : N) (v : value) : aenv :=
   {| asc := fun x => if N.eqb x i then Some v else asc r x; avc := avc r; afn := afn r |}.
 Definition scalar_of (v : value) : result Q := match v with VQ x => Ok x | VArr _ => Err EType end.
@@ -316,17 +151,4 @@ Fixpoint evalv (r : aenv) (e : expr) {struct e} : result value :=
         end))
   end.
 
-(* the scalar environment seen by sample point j *)
-Definition proj (r : aenv) (j : nat) : env :=
-  {| sc := fun x => match asc r x with Some v => vget v j | None => None end; vc := avc r; fn := afn r |}.
 
-(* ---- environments from association lists (for the generated cases) -------------------------------------------- *)
-Fixpoint fn_lookup (t : list (N * Q * Q)) (f : N) (x : Q) : option Q :=
-  match t with
-  | [] => None
-  | (g, a, v) :: r => if N.eqb f g && Qeq_bool a x then Some v else fn_lookup r f x
-  end.
-Definition mk_env (s : list (N * Q)) (v : list (N * list Q)) (t : list (N * Q * Q)) : env :=
-  {| sc := lookup s; vc := lookup v; fn := fn_lookup t |}.
-Definition mk_aenv (s : list (N * value)) (v : list (N * list Q)) (t : list (N * Q * Q)) : aenv :=
-  {| asc := lookup s; avc := lookup v; afn := fn_lookup t |}.
